@@ -566,7 +566,7 @@ func ruleTreeDelegation(c *Ctx, r *R) {
 		}
 		good := false
 		instrs(f, func(b *ssa.BasicBlock, i int, in ssa.Instruction) {
-			if ret, ok := in.(*ssa.Return); ok && path(ret.Results[0]) == f.Params[len(f.Params)-1].Name()+".Key" {
+			if ret, ok := in.(*ssa.Return); ok && path(ret.Results[0]) == pname(f.Params[len(f.Params)-1])+".Key" {
 				good = true
 			}
 		})
